@@ -78,6 +78,8 @@ def trace (I : Impl σ Int) (intern : σ → String) (ops : List (Op Int)) : Str
   let fin := s!"leak={(L.allocs : Int) - L.freed.length} live={(L.ctors : Int) - L.dtors} bad={badFree}"
   -- an access outside a buffer is undefined behaviour: whatever the real run shows, the model predicts nothing
   if L.events.contains .oob then "ub:oob" else
+  -- … nor about a read through a dangling reference (small_vector: `x.push_back(x[i])` at size() == DIM)
+  if L.events.contains .uaf then "ub:uaf" else
   s!"ok {"|".intercalate ss} # {"|".intercalate is} # {fin}"
 
 def vecIntern (v : Vec Int) : String := s!"{v.cap}:{fmtCells (v.cells.drop v.size)}"
